@@ -349,7 +349,8 @@ class LSML_Supervised(_BaseLSML, TransformerMixin):
     X, y = self._prepare_inputs(X, y, ensure_min_samples=2)
     n_constraints = self.n_constraints
     if n_constraints is None:
-      num_classes = len(np.unique(y))
+      # (negative = unlabeled; the labels are read as Constraints reads them)
+      num_classes = len(np.unique(y[np.asanyarray(y, dtype=int) >= 0]))
       n_constraints = 20 * num_classes**2
 
     c = Constraints(y)
